@@ -365,14 +365,13 @@ func (vc *VC) applyContract(st *State, ci *calleeInfo, instr ssa.Instruction, si
 	if c.Pure && res.Len() == 1 && !hasDefiningEnsures(c) && ci.recv != nil {
 		// pure method without defining equation: an uninterpreted function of receiver and arguments
 		rt := res.At(0).Type()
-		fn := "pm_" + sanitize(shortKey(c.Key))
 		sorts := []Sort{ci.recv.S.Sort}
 		ts := []Term{ci.recv.T}
 		for _, a := range ci.args {
 			sorts = append(sorts, a.S.Sort)
 			ts = append(ts, a.T)
 		}
-		vc.d.declFun(fn, sorts, sortOf(rt))
+		fn := vc.pmFun(c.Key, sorts, sortOf(rt))
 		st.assume = append(st.assume, eq(out[0].T, app(fn, ts...)))
 	}
 	for _, en := range c.Ensures {
